@@ -683,6 +683,28 @@ theorem mac_length (s : List Char) (h : isValidMac s = true) : s.length = 17 := 
     obtain ⟨_, _, rfl, _, _⟩ := hp t6 (by simp)
     simp [joinSep]
 
+/-- alphabet: every character of an accepted MAC is an ASCII hex digit or ':' — no non-ASCII character
+    (ligature, fullwidth form, …) can stand for one or two of them -/
+theorem mac_alphabet (s : List Char) (h : isValidMac s = true) :
+    ∀ c ∈ s, (isHex c = true ∨ c = ':') ∧ c.toNat < 128 := by
+  obtain ⟨g, _, hp, rfl⟩ := (mac_iff s).1 h
+  intro c hc
+  have key : isHex c = true ∨ c = ':' := by
+    rcases lemma_joinSep_mem ':' g c hc with h1 | ⟨t, ht, hct⟩
+    · exact Or.inr h1
+    · obtain ⟨a, b, rfl, ha, hb⟩ := hp t ht
+      simp at hct
+      rcases hct with rfl | rfl
+      · exact Or.inl ha
+      · exact Or.inl hb
+  refine ⟨key, ?_⟩
+  rcases key with hh | rfl
+  · simp [isHex, isDigit] at hh; omega
+  · decide
+
+example : isValidMac ['5','2',':','5','4',':','0','0',':','c','f',':','2','d',':', Char.ofNat 0xFB00] = false := by
+  decide +kernel
+
 example : isValidMac "52:54:00:cf:2D:31".toList = true := by decide +kernel
 example : isValidMac "52:54:00:cf:2d:31\n".toList = false := by decide +kernel
 example : isValidMac "52-54-00-cf-2d-31".toList = false := by decide +kernel
